@@ -71,6 +71,22 @@ func rtInputs(c *config, stream string, ngen int) []rtInput {
 		add("definitions", fmt.Sprintf("defs%d", i), c20Render(defs, r.perm(len(defs))))
 	}
 	add("spelling", "literals", "@a = global i32 u0x10\n@b = global i32 s0xFFFFFFFF\n@c = global i64 4096\n@d = global double 0x3FF0000000000000\n@e = global float 1.5\n@f = global double 1.0e3\n@g = global i1 true\n")
+	// integer constants around the hex/decimal decision and the 2^63 / 2^64 boundaries, written in decimal
+	{
+		var b strings.Builder
+		k := 0
+		for _, w := range []uint{16, 32, 63, 64, 65, 128} {
+			for _, v := range []string{"4095", "4096", "65535", "65536", "4294967295", "4294967296", "9223372036854775807", "9223372036854775808", "9223372036854775809", "18446744073709551615", "18446744073709551616", "-1", "-9223372036854775808", "1311768467463790320", "11068046444225730969"} {
+				x, _ := new(big.Int).SetString(v, 10)
+				if x.BitLen() > int(w) {
+					continue
+				}
+				fmt.Fprintf(&b, "@k%d = global i%d %s\n", k, w, v)
+				k++
+			}
+		}
+		add("spelling", "integer-boundaries", b.String())
+	}
 	add("spelling", "numbering", "define i32 @f(i32 %0, i32) {\n2:\n\t%3 = add i32 %0, %1\n\tbr label %4\n4:\n\t%5 = mul i32 %3, %3\n\tret i32 %5\n}\n\ndefine i32 @g(i32, i32) {\n\t%3 = add i32 %0, %1\n\tret i32 %3\n}\n")
 	add("spelling", "quoting", "@\"plain\" = global i32 0 ; comment\n\n\n  @\"with space\"   =   global   i32   1\ndefine void @\"f\"() {\n\"entry\":\n\tret void\n}\n")
 	return ins
